@@ -40,6 +40,8 @@ impl Acct {
 
 #[derive(Clone, Debug, Serialize, Deserialize)]
 pub enum Step {
+    /// the clock (inserted by the core's clock faults)
+    Wait { n: u32 },
     Install { threshold: u32, weights: std::vec::Vec<u32> },
     SetThreshold { t: u32, by_account: bool },
     SetWeight { s: usize, w: u32 },
@@ -59,6 +61,9 @@ impl Check for Thresholds {
     fn id(&self) -> &'static str { "thresholds" }
     fn runs(&self, tier: Tier) -> u64 { if tier == Tier::Quick { 500 } else { 40_000 } }
     fn components(&self) -> serde_json::Value { serde_json::json!({"real": ["examples/multisig-smart-account/threshold-policy (from source)", "policies::{simple_threshold, weighted_threshold}::*"], "stub": ["Acct forwarder standing in for the smart account"]}) }
+    fn clock_step(&self, n: u32) -> Option<Step> {
+        Some(Step::Wait { n })
+    }
     fn generate(&self, rng: &mut Rng, tier: Tier) -> (Cfg, std::vec::Vec<Step>) {
         let cfg = Cfg { weighted: rng.chance(50), signers: 2 + rng.below(4) as usize };
         let n = cfg.signers;
@@ -95,11 +100,18 @@ impl Check for Thresholds {
         let call = |f: &str, args: Vec<Val>| ac.try_call(&pol, &Symbol::new(e, f), &args).is_ok();
         let mut m = Model::default();
         for (i, s) in steps.iter().enumerate() {
+            if let Step::Wait { n } = s {
+                w.advance(*n);
+                st.ledgers += *n as u64;
+                st.hit("clock.advance");
+                continue;
+            }
             w.set_auth(&[]);
             let before = w.storage_digest(&[&pol]);
             let total = |mw: &BTreeMap<usize, u32>| mw.values().try_fold(0u32, |a, b| a.checked_add(*b));
             let mut outcome: Option<(&str, bool, bool)> = None;
             match s {
+                Step::Wait { .. } => unreachable!("handled above"),
                 Step::Install { threshold, weights } => {
                     if cfg.weighted {
                         let mut mp: Map<Signer, u32> = Map::new(e);
